@@ -1,6 +1,7 @@
 package verifsim
 
 import (
+	"encoding/json"
 	"fmt"
 	"sort"
 	"strings"
@@ -745,7 +746,13 @@ func init() {
 
 // liveEditAny changes one business value of a restored envelope in memory.
 func liveEditAny(env *gobl.Envelope, what string) bool {
-	switch doc := env.Extract().(type) {
+	return liveEditDoc(env.Extract(), what)
+}
+
+// liveEditDoc changes one business value through a pointer to the document
+// the caller already holds.
+func liveEditDoc(held any, what string) bool {
+	switch doc := held.(type) {
 	case *bill.Invoice:
 		return liveBill(&doc.Lines, &doc.Supplier, &doc.Notes, &doc.Meta, what)
 	case *bill.Order:
@@ -822,25 +829,54 @@ func execC08live(x *X) {
 			if !ok {
 				continue
 			}
-			env, err := ParseEnv(base) // the restart: only durable bytes survive
-			if err != nil {
+			// what the holder of the envelope did between taking the document
+			// out and changing it: nothing, or read-only operations (which
+			// must not let a later change go unnoticed)
+			for pre, preName := range []string{"", "validate", "serialise", "validate+serialise+digest"} {
+				env, err := ParseEnv(base) // the restart: only durable bytes survive
+				if err != nil {
+					continue
+				}
+				held := env.Extract()
+				if pre != 0 {
+					if p := safely(func() {
+						if pre == 1 || pre == 3 {
+							_ = env.Validate()
+						}
+						if pre == 2 || pre == 3 {
+							_, _ = json.Marshal(env)
+						}
+						if pre == 3 {
+							_, _ = env.Digest()
+						}
+					}); p != "" {
+						continue
+					}
+					x.Probe("in-memory-edit-after-read-only-use")
+				}
+				if !liveEditDoc(held, op.S) {
+					continue
+				}
+				x.Case(fmt.Sprintf("%s|%v|live|%s|%s", d.Name, signed, op.S, preName))
+				x.Fault("in-memory-edit")
+				var verr error
+				if p := safely(func() { verr = env.Validate() }); p != "" {
+					x.Probe("panic-on-edited-document")
+					continue
+				}
+				if verr == nil {
+					x.Violate("undetected:inmemory:"+op.S+"/"+d.Kind+":"+preName, "the %s of %s (signed=%v) was changed in memory (through the document pointer taken right after the envelope was restored from its stored bytes; read-only use before the change: %q), nothing was recalculated, and the envelope still validates", op.S, d.Name, signed, preName)
+					continue
+				}
+				x.Probe("in-memory-edit-detected")
+			}
+			env, err := ParseEnv(base)
+			if err != nil || !liveEditAny(env, op.S) {
 				continue
 			}
-			if !liveEditAny(env, op.S) {
+			if p := safely(func() { _ = env.Validate() }); p != "" {
 				continue
 			}
-			x.Case(fmt.Sprintf("%s|%v|live|%s", d.Name, signed, op.S))
-			x.Fault("in-memory-edit")
-			var verr error
-			if p := safely(func() { verr = env.Validate() }); p != "" {
-				x.Probe("panic-on-edited-document")
-				continue
-			}
-			if verr == nil {
-				x.Violate("undetected:inmemory:"+op.S+"/"+d.Kind, "the %s of %s (signed=%v) was changed in memory after the envelope was restored from its stored bytes, nothing was recalculated, and the envelope still validates", op.S, d.Name, signed)
-				continue
-			}
-			x.Probe("in-memory-edit-detected")
 			old := env.Head.Digest.Value
 			sigs := env.Signatures
 			env.Signatures = nil
